@@ -10,7 +10,7 @@
 From Coq Require Import List Bool Arith Ascii String NArith Permutation Sorted.
 From UV.Base Require Import Order SortUniq Res.
 From UV.Py Require Import PyStr.
-From UV.Schemes Require Import Common Generic LegacyOpenssl Gentoo GentooProofs Debian DebianProofs Semver SemverProofs Gem GemProofs Rpm RpmProofs Arch ArchProofs.
+From UV.Schemes Require Import Common Generic LegacyOpenssl Gentoo GentooProofs Debian DebianProofs Semver SemverProofs Gem GemProofs Rpm RpmProofs Arch ArchProofs Openssl.
 Import ListNotations.
 
 (* the laws, for any comparison that is a total preorder: < is cmp = Lt, > is cmp = Gt *)
@@ -90,6 +90,10 @@ Theorem C01_alpm :
   TPO arch_order /\ forall a b, has_rel a = has_rel b -> arch_cmp a b = arch_order a b.
 Proof. split; [exact arch_order_tpo|exact arch_cmp_order]. Qed.
 
+Theorem C01_openssl :
+  TPO ossl_cmp /\ forall a b, ossl_ok a = true -> ossl_ok b = true -> ossl_ops a b = ops_of (ossl_cmp a b).
+Proof. split; [exact ossl_tpo|exact ossl_ops_spec]. Qed.
+
 (* Non-vacuity: accepted versions have the shape the theorems need, and the orders are not trivial *)
 Example C01_nonvacuous :
   gok (list_ascii_of_string "1.02_alpha1_p-r3") = true /\
@@ -112,3 +116,4 @@ Print Assumptions C01_semver_family.
 Print Assumptions C01_gem.
 Print Assumptions C01_rpm.
 Print Assumptions C01_alpm.
+Print Assumptions C01_openssl.
